@@ -902,7 +902,7 @@ def classify(v):
         return "module"
     if isinstance(v, logging.Logger):
         return "logger"
-    if isinstance(v, np.random.Generator):
+    if isinstance(v, (np.random.Generator, torch.Generator)):
         return "rng"
     if isinstance(v, np.ndarray):
         if v.ndim == 0:
@@ -1040,6 +1040,10 @@ def _cmp(e, g, path, pos, slack, out):
     if isinstance(e, np.random.Generator):
         if not isinstance(g, np.random.Generator):
             out.add(path, pos, "kind", "numpy.random.Generator", short(g), kind)
+        return
+    if isinstance(e, torch.Generator):
+        if not isinstance(g, torch.Generator):
+            out.add(path, pos, "kind", "torch.Generator", short(g), kind)
         return
     # ---- ndarrays: dtype, shape, bytes (NaN-aware)
     if isinstance(e, np.ndarray):
@@ -1209,7 +1213,7 @@ def summary(v):
         return {type(v).__name__: {k: summary(x) for k, x in v.state_dict().items()}}
     if isinstance(v, logging.Logger):
         return "logger"
-    if isinstance(v, np.random.Generator):
+    if isinstance(v, (np.random.Generator, torch.Generator)):
         return "rng"
     if isinstance(v, np.ndarray):
         return f"nd:{v.dtype}:{v.shape}:{_h(np.ascontiguousarray(v).tobytes())}"
